@@ -32,7 +32,9 @@ def find_prepare(ctx):
         if b["kind"] != "fn":
             continue
         tys = [b["locals"][i]["s"] for i in range(1, b["arg_count"] + 1)]
-        if any("http::response::Builder" in t for t in tys) and any("[std::ops::Range<u64>]" in t or "Vec<std::ops::Range<u64>>" in t for t in tys):
+        takes_ranges = any("[std::ops::Range<u64>]" in t or "Vec<std::ops::Range<u64>>" in t for t in tys)
+        renders = "Vec<std::vec::Vec<u8>>" in b["locals"][0]["s"]
+        if takes_ranges and (any("http::response::Builder" in t for t in tys) or renders) and "Stream" not in n:
             out.append(n)
     if len(out) != 1:
         raise FailClosed("multipart preparation function (Builder + ranges) not found uniquely: %r" % out)
